@@ -304,7 +304,8 @@ def run(ctx):
             check_cookie(ctx, text, "v", kw, "name")
             check_redirect(ctx, "/next?x=" + text, False)
             check_redirect(ctx, "http://example.com/" + text, rng.random() < 0.3)
-            for _ in range(4):
+            check_redirect(ctx, rng.choice(["https://example.org", "//host", "http://u@h", ""]) + text + rng.choice(["", "/p", "?q"]), False)
+            for _ in range(5):
                 ctx.case_enum(nt)
     ctx.exhaustive = True
     ctx.extra["exhaustive_bound"] = (f"all strings of length <={top} over {len(SPECIAL)} special characters through 8 mutation paths (value and name); "
@@ -325,7 +326,7 @@ def run(ctx):
             check_cookie(ctx, "k", s, kw, "value")
         else:
             check_cookie(ctx, s, "v", kw, "name")
-        check_redirect(ctx, rng.choice(["/", "http://h/", "//h/p?", "p#"]) + s, rng.random() < 0.2)
+        check_redirect(ctx, rng.choice(["/", "http://h/", "//h/p?", "p#", "https://example.org", "//host", ""]) + s, rng.random() < 0.2)
         ctx.case(("long", s))
     ctx.monitors["hygiene-contract(icontract)"] = contracts.COUNTS["list_headers.post"]
 
